@@ -98,6 +98,10 @@ def cases_codes(tier):
         for b in range(nblock):
             out.append(dict(code=nm, block=b, nblock=nblock))
         out.append(dict(code=nm, block=-1, nblock=nblock))  # structural part: code words, stabilizers
+    if tier != 'thorough':
+        # the large codes: structural part only in the quick tier (orthonormal code words, listed stabilizers fix them); their Knill-Laflamme sweep is thorough-only
+        for nm in CODES_THOROUGH:
+            out.append(dict(code=nm, block=-1, nblock=1))
     return out
 
 
